@@ -74,6 +74,13 @@ template<class T> static void others(Rng& r, int n, const char* tn)
 		if (!(h.z >= 0 && h.z <= 1 && h.y >= 0 && h.y <= 1 && (mx == mn || (h.x >= 0 && h.x < (T)360.0001)))) tfail("hsvColor" + sfx, "range", v3(c), "h in [0,360), s,v in [0,1]", v3(h));
 		if (std::fabs((double)h.z - mx) > 1e-7) tfail("hsvColor" + sfx, "value is not the maximum", v3(c), str(mx), str((double)h.z));
 		if (mx - mn > 1e-3 && (std::fabs((double)back.x - (double)c.x) > tol * 5 || std::fabs((double)back.y - (double)c.y) > tol * 5 || std::fabs((double)back.z - (double)c.z) > tol * 5)) tfail("rgbColor" + sfx, "does not invert hsvColor", v3(c), v3(c), v3(back));
+		// hues next to the sector boundaries 60 k (the largest value below, the boundary, the smallest above; 360 itself wraps to 0) against the
+		// textbook HSV -> RGB formula in long double; near-pure primaries with one tiny component round trip through hue ~ 0 / 360
+		if (i % 5 == 0) { int k = r.range(0, 6); T hb = (T)(60.0 * k), hs[3] = { std::nextafter(hb, (T)-1), hb, std::nextafter(hb, (T)1000) }; T sat = (T)r.real(0.2, 1), val = (T)r.real(0.2, 1);
+			for (T hq : hs) { if (hq < 0 || hq > 360) continue; long double hp = (long double)hq / 60.0L; long double fl = floorl(hp); int sec = ((int)fl) % 6; long double f = hp - fl, v = val, sl = sat, pp = v * (1 - sl), qq = v * (1 - sl * f), tt = v * (1 - sl * (1 - f)), e[3];
+				switch (sec) { case 0: e[0] = v; e[1] = tt; e[2] = pp; break; case 1: e[0] = qq; e[1] = v; e[2] = pp; break; case 2: e[0] = pp; e[1] = v; e[2] = tt; break; case 3: e[0] = pp; e[1] = qq; e[2] = v; break; case 4: e[0] = tt; e[1] = pp; e[2] = v; break; default: e[0] = v; e[1] = pp; e[2] = qq; }
+				glm::vec<3, T> got = glm::rgbColor(glm::vec<3, T>(hq, sat, val)); if (std::fabs((double)(got.x - e[0])) > 2e-4 || std::fabs((double)(got.y - e[1])) > 2e-4 || std::fabs((double)(got.z - e[2])) > 2e-4) tfail("rgbColor" + sfx, "hue next to a sector boundary", v3(glm::vec<3, T>(hq, sat, val)), str((double)e[0]) + "," + str((double)e[1]) + "," + str((double)e[2]), v3(got)); }
+			T tiny = (T)std::ldexp(1.0, -r.range(8, sizeof(T) == 4 ? 22 : 50)); glm::vec<3, T> nr((T)1, (T)0, tiny), nb = glm::rgbColor(glm::hsvColor(nr)); if (std::fabs((double)nb.x - 1) > tol * 5 || std::fabs((double)nb.y) > tol * 5 || std::fabs((double)nb.z - (double)tiny) > 2e-4) tfail("rgbColor" + sfx, "does not invert hsvColor near a pure primary", v3(nr), v3(nr), v3(nb)); }
 		// hsv -> rgb -> hsv: hue over the full circle, sector boundaries included
 		double hue = (i % 3 == 0) ? 60.0 * r.range(0, 5) + r.real(0, 1e-3) * (i % 2) : r.real(0, 359.99); glm::vec<3, T> hsv((T)hue, (T)r.real(0.05, 1), (T)r.real(0.05, 1)); glm::vec<3, T> rgb = glm::rgbColor(hsv), h2 = glm::hsvColor(rgb);
 		if (!(rgb.x >= -1e-6 && rgb.x <= 1 + 1e-6 && rgb.y >= -1e-6 && rgb.y <= 1 + 1e-6 && rgb.z >= -1e-6 && rgb.z <= 1 + 1e-6)) tfail("rgbColor" + sfx, "outside the RGB cube", v3(hsv), "[0,1]^3", v3(rgb));
